@@ -84,6 +84,12 @@ def execute(st, ctx):
             if uses:
                 k1 = st.faults.draw(len(uses))
                 f1 = uses[k1] + (make_fault(st.faults.draw(len(FAULT_TYPES)), "fault@%d" % k1),)
+                if uses[k1][0] in base.world.fns and st.faults.draw(4) == 3:
+                    # ... or at a use the stdlib never makes (one to three calls beyond its last call of that callable):
+                    # a tool that calls its function more often than its counterpart runs into it
+                    party = uses[k1][0]
+                    last = max(u[1] for u in uses if u[0] == party)
+                    f1 = (party, last + 1 + st.faults.draw(3), f1[2])
                 f2 = None
                 k2 = st.faults.draw(len(uses) + 1)
                 if k2 and k2 - 1 != k1:
